@@ -196,14 +196,6 @@ EXPORT errno_t _wcsncpy_s_chk(wchar_t *restrict dest, rsize_t dmax,
         overlap_bumper = dest;
 
         while (dmax > 0) {
-            if (unlikely(src == overlap_bumper)) {
-                handle_werror(orig_dest, orig_dmax,
-                              "wcsncpy_s: "
-                              "overlapping objects",
-                              ESOVRLP);
-                return RCNEGATE(ESOVRLP);
-            }
-
             if (unlikely(slen == 0)) {
                 /* Copying truncated to slen chars.  Note that the TR says to
                  * copy slen chars plus the null char.  We null the slack.
@@ -222,6 +214,14 @@ EXPORT errno_t _wcsncpy_s_chk(wchar_t *restrict dest, rsize_t dmax,
                 *dest = L'\0';
 #endif
                 return RCNEGATE(EOK);
+            }
+
+            if (unlikely(src == overlap_bumper)) {
+                handle_werror(orig_dest, orig_dmax,
+                              "wcsncpy_s: "
+                              "overlapping objects",
+                              ESOVRLP);
+                return RCNEGATE(ESOVRLP);
             }
 
             *dest = *src;
